@@ -397,6 +397,7 @@ func (s *Sim) recvRevocation(x int, msg *lnwire.RevokeAndAck) error {
 			sideName(y), h, err)
 	}
 	m.RevsDelivered[x]++
+	s.FwdPkgs[y] = append(s.FwdPkgs[y], fwd)
 
 	// x's updates covered by the now irrevocable commitment of x.
 	old := m.Locked[x]
